@@ -213,7 +213,9 @@ def oracle(c, stats):
     if t2 != t3:
         d = [(x, y) for x, y in zip(t2.split("\n"), t3.split("\n")) if x != y]
         raise Violation("not-idempotent", "second and third write differ, e.g. %r vs %r" % (d[0] if d else ("", "")))
-    if c["normalised"] and t1 != t2:
+    # a tilt below the printed precision is written as 0.000000 and legitimately disappears in the normalising pass
+    subprec = spec["cell"] is not None and any(0 < abs(spec["cell"][i][j]) < 5.1e-7 for i, j in ((1, 0), (2, 0), (2, 1)))
+    if c["normalised"] and not subprec and t1 != t2:
         d = [(x, y) for x, y in zip(t1.split("\n"), t2.split("\n")) if x != y]
         raise Violation("normalised-not-stable", "strings already normalised but first and second write differ, e.g. %r vs %r" % (d[0] if d else ("", "")))
     # path vs file object
